@@ -345,6 +345,12 @@ def main():
     from checks import c13 as _c13
 
     run.add("export-values.gridfunction-helpers[octa, whole grid + segments, real + complex]", "bounded", _c13.ob_gridfunction_numeric, "octa")
+    # vector spaces whose basis depends on the normal the space was built with (SNC = nu x RWG, nu the possibly swapped normal): the exported values are
+    # those of the represented function, spec built from the dof map, multipliers, vertices and reference shape functions only (not the space's evaluator)
+    snc_sw = ("SNC", 0, {"include_boundary_dofs": True, "swapped_normals": [2]})
+    for what in ("centers", "vertices"):
+        run.add("export-values.GridFunction.%s[tetra SNC0 swapped_normals=[2]]" % what, "post", _c13.ob_gridfunction, "tetra", snc_sw, what)
+        run.add("export-values.GridFunction.%s[tetra SNC0]" % what, "post", _c13.ob_gridfunction, "tetra", _c13.SNCB, what)
     return run.finish()
 
 
